@@ -153,7 +153,7 @@ U_ALIAS = [
     (3, "A", (2, "A"), [["t2"]], "PK"),
     (3, "B", (1, "X"), [["t2"]], "K"),
 ]
-E_LABELS_ALIAS = ["begin:none", "begin:entry", "begin:entry-byslot", "begin:hash", "exec:txs",
+E_LABELS_ALIAS = ["begin:none", "begin:entry-byslot", "begin:hash", "begin:hash-again", "exec:txs",
                   "end:event", "end:noevent", "fin:prune"]
 
 
@@ -173,13 +173,13 @@ def run(ctx):
         engine_model(ctx, "engine_quick", U_QUICK, sample=60000)
     else:
         state_model(ctx, "state_2forks_4keys", k4, 2, 2)
-        state_model(ctx, "state_3forks_3keys", ["000", "001", "010"], 2, 3)
-        state_model(ctx, "state_2forks_5keys", k5, 2, 2, sample=500000)
+        state_model(ctx, "state_3forks_3keys", ["000", "001", "010"], 2, 3, sample=300000)
+        state_model(ctx, "state_2forks_5keys", k5, 2, 2, sample=250000)
         state_sim(ctx, "state_sim_4forks_7keys", ["0000", "0001", "0010", "0100", "0101", "1000", "1111"],
-                  3, 4, num=2500, depth=40)
+                  3, 4, num=1000, depth=40)
         engine_model(ctx, "engine_quick", U_QUICK)
-        engine_model(ctx, "engine_deep", U_DEEP, sample=700000)
-        engine_model(ctx, "engine_alias", U_ALIAS, labels=E_LABELS_ALIAS, sample=700000)
+        engine_model(ctx, "engine_deep", U_DEEP, sample=400000)
+        engine_model(ctx, "engine_alias", U_ALIAS, labels=E_LABELS_ALIAS)
     return ctx.finish(rule="state models: every (contents of all forks, operation) pair of the model is one "
                            "case, replayed in three key layouts; engine models: every (engine state, call) "
                            "pair; simulation: every step of every simulated behaviour")
